@@ -2,7 +2,9 @@
 (* Trace validation for C12 and C13 (impl -> spec).  Events of pv-crypto     *)
 (* kes-trace (one key after the other; "keygen" starts a new one):           *)
 (*  {"ev":"keygen","depth":d,"compact":b,"pk":id,"to_pk":id,"period":0,      *)
-(*   "size":n,"found":[path..]}                                               *)
+(*   "size":n,"found":[path..],"dirty":"random"|"oldkey","stale":[path..]}    *)
+(*   (the buffer given to keygen always holds garbage or an older evolved     *)
+(*    key; "stale" = node seeds of that older key still found after keygen)   *)
 (*  {"ev":"update","ok":b,"period":p,"pk":id,"found":[path..]}                *)
 (*  {"ev":"sign","sig":id,"msg":id,"len":n,"rt":b}                             *)
 (*  {"ev":"verify","sig":id,"t":t,"ok":b}    (under the key's pk and the      *)
@@ -49,6 +51,9 @@ TKeyGen ==
                    /\ Rec[l].size = KeySize(depth')
                    /\ Rec[l].to_pk = Rec[l].pk
     /\ FoundOK(Rec[l])
+    \* keygen into a dirty buffer (random bytes / an older evolved key): design model only -
+    \* nothing of the buffer's previous owner survives (the property speaks about one key's evolution)
+    /\ (JudgeC13 = "strict" /\ Has(Rec[l], "stale")) => Rec[l].stale = <<>>
 
 \* the spec's Update when the logged outcome is the specified one; when it is not
 \* (only tolerated while C12 is not being judged) follow the log so that C13 can
